@@ -392,6 +392,31 @@ Arguments RStruct {F F32} l.
 Arguments RTuple {F F32} l.
 Arguments REnum {F F32} i.
 
+(* nesting depth of the JSON values of a type (Option adds none) *)
+Fixpoint ty_depth (t : ty) : N :=
+  match t with
+  | TOption t' => ty_depth t'
+  | TVec t' => 1 + ty_depth t'
+  | TStruct fs =>
+    1 + (fix go (l : list (str * option str * ty)) : N :=
+           match l with [] => 0 | (_, t') :: r => N.max (ty_depth t') (go r) end) fs
+  | TTuple ts => 1 + (fix go (l : list ty) : N := match l with [] => 0 | t' :: r => N.max (ty_depth t') (go r) end) ts
+  | _ => 0
+  end.
+
+(* a predicate on strings holds of every JSON name (field key, variant name) of the type *)
+Fixpoint names_all (P : str -> Prop) (t : ty) : Prop :=
+  match t with
+  | TOption t' => names_all P t'
+  | TVec t' => names_all P t'
+  | TStruct fs =>
+    (fix go (l : list (str * option str * ty)) : Prop :=
+       match l with [] => True | (idr, t') :: r => P (name_of (fst idr) (snd idr)) /\ names_all P t' /\ go r end) fs
+  | TTuple ts => (fix go (l : list ty) : Prop := match l with [] => True | t' :: r => names_all P t' /\ go r end) ts
+  | TEnum vs => Forall (fun vr => P (variant_name vr)) vs
+  | _ => True
+  end.
+
 (* ---- lib.rs :: to_string / from_str: the typed mapping composed with the serialiser and the parser of C13 ---- *)
 Section TypedText.
   Variable F : Type.
@@ -402,6 +427,18 @@ Section TypedText.
   Variable narrow : F -> F32.
   Variable fparse : str -> option F.
   Variable fdisplay : F -> str.
+  Variable ffinite : F -> Prop.      (* f64::is_finite *)
+
+  (* every number the value turns into is finite, every string is made of code points (what C13's serialiser theorems need) *)
+  Definition text_ok_at (t : ty) (v : rval F F32) : Prop :=
+    match t, v with
+    | TInt _ _, RInt z => ffinite (of_int z)
+    | TF64, RF64 x => ffinite x
+    | TF32, RF32 x => ffinite (widen x)
+    | TString, RStr s => Forall (fun c => c <= 0x10ffff) s
+    | _, _ => True
+    end.
+  Definition text_ok (t : ty) (v : rval F F32) : Prop := val_forall F F32 text_ok_at t v.
 
   (* humphrey_json::to_string(&v) = v.to_json().serialize() *)
   Definition to_string (t : ty) (v : rval F F32) : str := serialize F fdisplay (to_json F F32 of_int widen t v).
